@@ -139,7 +139,7 @@ def setupInit (s : St) : St × Int :=
   else if s.channels < 1 ∨ s.channels > 255 then (s, EINVAL)
   else match s.setup with
     | none => (s, EINVAL)
-    | some _ => ({ s with stone := true }, 0)
+    | some _ => if s.stone then (s, EINVAL) else ({ s with stone := true }, 0)
 
 def cleared : St := { inited := false }
 
